@@ -93,6 +93,7 @@ def check(model, rep, tier):
   rep.rule('CFG-KEYED', 'builder state of nestable sections is keyed by the '
            'section', floor=4)
   rep.rule('CFG-JUMP', 'jump statements use the jump API with the right stops', floor=7)
+  rep.rule('CFG-WIRE', 'jump nodes are recorded and wired through their guards', floor=5)
   rep.rule('CFG-MIRROR', 'edge mirroring', floor=4)
   rep.rule('CFG-LEAVES', 'leaf set discipline', floor=2)
 
@@ -308,6 +309,134 @@ def check(model, rep, tier):
               line=mfi.node.lineno,
               witness='try: ... finally: (try: return 1 finally: pass) -- the '
               'statement after the outer try loses its predecessor')
+
+  # ---------------------------------------------------------------- CFG-WIRE
+  # jump nodes are recorded, then wired through their guards, by the builder
+  class _Body:          # a loop body as a function-like object for pycfg
+    def __init__(self, body):
+      self.body = body
+
+  def every_path(stmts, pred):
+    """pred(call_or_stmt) happens at least once on every path through stmts
+    (continue / break end the iteration)."""
+    bg = pycfg.CFG(_Body(stmts))
+    w = {}
+    for i, (k, a) in enumerate(bg.nodes):
+      if a is None:
+        continue
+      if any(pred(x) for e in bg.exprs_of(i) for x in ast.walk(e)):
+        w[i] = 1
+    rng = bg.count_range(w)
+    return rng is not None and rng[0] >= 1
+
+  gbm = gb.methods
+  # W1: every explicit raise is recorded for every handler that guards it
+  crn = gbm.get('connect_raise_node')
+  if crn is None:
+    raise core.AnalysisError('GraphBuilder.connect_raise_node not found')
+  npar = crn.params()[0]
+  loops = [l for l in core.walk_no_nested(crn.node) if isinstance(l, ast.For)]
+  ok = len(loops) == 1
+
+  def stores_node(x):
+    if isinstance(x, ast.Call) and isinstance(x.func, ast.Attribute) and \
+        x.func.attr in ('append', 'add') and len(x.args) == 1 and \
+        core.norm(x.args[0]) == npar and 'self.raises' in core.norm(x.func.value):
+      return True
+    if isinstance(x, ast.Assign) and any('self.raises[' in core.norm(t) for t in x.targets) \
+        and isinstance(x.value, (ast.List, ast.Set, ast.Tuple)) and any(
+            core.norm(e) == npar for e in x.value.elts):
+      return True
+    return False
+  if ok:
+    ok = every_path(loops[0].body, stores_node)
+  rep.check(ok, 'CFG-WIRE', '%s:every-raise-recorded' % crn.site,
+            'each explicit raise must be added to the raise list of every handler '
+            'section that guards it (also when the list already exists): the '
+            'handler entry is wired to all of them',
+            line=crn.node.lineno,
+            witness='try: if a: raise E(1) / if b: raise E(2) / except E: ... -- the '
+            'second raise has no edge to the handler')
+
+  # W2: a jump leaves through the *ends of its guards*
+  for mname, coll in (('exit_section', 'exits'), ('exit_loop_section', 'continues')):
+    mfi = gbm.get(mname)
+    if mfi is None:
+      raise core.AnalysisError('GraphBuilder.%s not found' % mname)
+    lps = [l for l in core.walk_no_nested(mfi.node) if isinstance(l, ast.For) and
+           core.norm(l.iter).startswith('self.%s[' % coll) and isinstance(l.target, ast.Name)]
+    ok = len(lps) == 1
+    facts = {}
+    if ok:
+      lp = lps[0]
+      j = lp.target.id
+      calls = [c for c in ast.walk(lp) if isinstance(c, ast.Call) and core.norm(c.func) ==
+               'self._connect_jump_to_finally_sections' and len(c.args) == 1 and
+               core.norm(c.args[0]) == j]
+      ok = len(calls) == 1
+      if ok:
+        # the result is what flows on: into leaves, or as source of _connect_nodes
+        res_names = {t.id for a in ast.walk(lp) if isinstance(a, ast.Assign) and
+                     a.value is calls[0] for t in a.targets if isinstance(t, ast.Name)}
+
+        def is_res(e):
+          return e is calls[0] or (isinstance(e, ast.Name) and e.id in res_names)
+        used = False
+        for x in ast.walk(lp):
+          if isinstance(x, ast.AugAssign) and core.norm(x.target) == 'self.leaves' and is_res(x.value):
+            used = True
+          if isinstance(x, ast.Call) and core.norm(x.func) == 'self._connect_nodes' and \
+              x.args and is_res(x.args[0]):
+            used = True
+          if isinstance(x, ast.Call) and core.norm(x.func) in (
+              'self.leaves.update', 'self.leaves.add') and x.args and is_res(x.args[0]):
+            used = True
+        raw = [core.norm(x)[:50] for x in ast.walk(lp) if isinstance(x, ast.Call) and
+               core.norm(x.func) == 'self._connect_nodes' and x.args and
+               core.norm(x.args[0]) == j]
+        raw += [core.norm(x)[:50] for x in ast.walk(lp) if isinstance(x, ast.AugAssign) and
+                core.norm(x.target) == 'self.leaves' and j in core.norm(x.value) and
+                not is_res(x.value)]
+        facts = {'guard_ends_used': used, 'jump_wired_directly': raw}
+        ok = used and not raw
+    rep.check(ok, 'CFG-WIRE', '%s:jumps-leave-through-guard-ends' % mfi.site,
+              'a jump protected by finally blocks continues from the *ends of the '
+              'last guard* (the value returned by _connect_jump_to_finally_sections), '
+              'never from the jump node itself', facts, line=mfi.node.lineno,
+              witness='for ..: try: continue / finally: x = 1 -- the edge finally-end '
+              '-> loop header')
+
+  # W3: every guard of a jump is traversed, and guard subgraphs live until reset
+  cj = gbm.get('_connect_jump_to_finally_sections')
+  if cj is None:
+    raise core.AnalysisError('GraphBuilder._connect_jump_to_finally_sections not found')
+  lps = [l for l in core.walk_no_nested(cj.node) if isinstance(l, ast.For) and
+         'self.finally_sections[' in core.norm(l.iter)]
+  ok = len(lps) == 1
+  if ok:
+    ok = every_path(lps[0].body, lambda x: isinstance(x, ast.Call) and core.norm(
+        x.func) == 'self._connect_nodes') and not any(
+            isinstance(x, (ast.Continue, ast.Break)) for x in ast.walk(lps[0]))
+  rep.check(ok, 'CFG-WIRE', '%s:every-guard-traversed' % cj.site,
+            'the jump must be connected through every finally section that '
+            'guards it, unconditionally', line=cj.node.lineno,
+            witness='a break and a return guarded by the same finally block')
+  removers = []
+  for mname, mfi in gbm.items():
+    if mname in ('reset', '__init__'):
+      continue
+    for x in core.walk_no_nested(mfi.node):
+      if isinstance(x, ast.Delete) and any('self.finally_section_subgraphs' in core.norm(t)
+                                           for t in x.targets):
+        removers.append('%s: %s' % (mname, core.norm(x)))
+      if isinstance(x, ast.Call) and isinstance(x.func, ast.Attribute) and x.func.attr in (
+          'pop', 'clear', 'popitem') and 'self.finally_section_subgraphs' in core.norm(x.func.value):
+        removers.append('%s: %s' % (mname, core.norm(x)[:60]))
+  rep.check(not removers, 'CFG-WIRE', '%s:GraphBuilder:guard-subgraphs-kept' % CFG,
+            'the subgraph of a finally section must stay available until the graph '
+            'is built: jumps with different targets (a break and a return) that '
+            'share a guard are wired at different times', {'removed_by': removers},
+            witness='for ..: try: (if a: break) (if b: return x) / finally: f()')
 
   # ---------------------------------------------------------------- CFG-JUMP
   def handler_call(hname):
